@@ -17,8 +17,8 @@
 (*                           (and, for floats, Precision)                  *)
 (*            "invalid"      outside the grammar: must be a compile error  *)
 (*            "unspecified"  accepted by the implementation but not        *)
-(*                           documented (leading "+", sign of a            *)
-(*                           denominator, "@" scale): never generated      *)
+(*                           documented (leading "+" of integers and       *)
+(*                           floats, "@" scale): never generated           *)
 (***************************************************************************)
 EXTENDS Rat
 
@@ -162,14 +162,16 @@ RatShape(t) ==
       hasB == Kinds(r10) = <<"base", "radix">>
   IN [relaxed |-> relaxed, neg |-> neg /\ r1[1].s = <<cMinus>>, plus |-> neg /\ r1[1].s = <<cPlus>>, us |-> us \/ dus,
       npf |-> IF npf THEN PrefixRadix(r3[1].s) ELSE 0, n |-> IF hasN THEN r4[1].s ELSE <<>>, hasN |-> hasN,
-      hasSl |-> hasSl, dsign |-> dneg, dpf |-> IF dpf THEN PrefixRadix(r8[1].s) ELSE 0, d |-> IF hasD THEN r9[1].s ELSE <<>>,
+      hasSl |-> hasSl, dsign |-> dneg, dminus |-> dneg /\ r6[1].s = <<cMinus>>, dpf |-> IF dpf THEN PrefixRadix(r8[1].s) ELSE 0, d |-> IF hasD THEN r9[1].s ELSE <<>>,
       hasD |-> hasD, hasB |-> hasB, base |-> IF hasB THEN SmallDec(r10[2].s) ELSE 0,
       clean |-> r10 = <<>> \/ hasB]
 RatRadix(sh) == IF sh.hasB THEN sh.base ELSE IF sh.npf # 0 THEN sh.npf ELSE 10
 RatStatus(m, t) ==
   LET sh == RatShape(t)  radix == RatRadix(sh) IN
   IF ~sh.clean \/ ~sh.hasN \/ (sh.hasSl /\ ~sh.hasD) THEN "invalid"
-  ELSE IF sh.plus \/ sh.dsign THEN "unspecified"
+  \* a sign on the denominator (and a leading "+") is not in macros/docs/rbig.md, but the macro accepts it and so does the
+  \* run-time parser (its documentation shows "-0x1f/-0x1e"): the property covers every ACCEPTED literal, so these forms
+  \* are literals of the language with the sign of the quotient
   ELSE IF sh.hasB /\ (sh.npf # 0 \/ sh.dpf # 0) THEN "unspecified"     \* `_0b102/_0h2 base 32`: prefix text read as digits
   ELSE IF sh.us /\ ~sh.hasB THEN "unspecified"
   ELSE IF sh.hasB /\ ~sh.hasSl THEN "unspecified"        \* `base N` is only documented together with a denominator
@@ -180,7 +182,7 @@ RatStatus(m, t) ==
   ELSE "valid"
 RatValue(t) ==
   LET sh == RatShape(t)  radix == RatRadix(sh)
-  IN Q(I(IF sh.neg THEN 1 ELSE 0, NatOf(sh.n, radix)), IF sh.hasD THEN NatOf(sh.d, radix) ELSE One)
+  IN Q(I(IF sh.neg # sh.dminus THEN 1 ELSE 0, NatOf(sh.n, radix)), IF sh.hasD THEN NatOf(sh.d, radix) ELSE One)
 RatIsRelaxed(t) == RatShape(t).relaxed
 
 \* ------------------------------------------------------------------ the three operators of the property
